@@ -2,6 +2,7 @@ import fcntl, glob, json, os, re, shutil, subprocess, sys, time
 from concurrent.futures import ThreadPoolExecutor
 
 import props as P
+sys.path.insert(0, os.path.join(os.path.dirname(os.path.dirname(os.path.abspath(__file__))), 'translator'))
 
 ROOT = os.path.dirname(os.path.dirname(os.path.abspath(__file__)))
 COQ = os.path.join(ROOT, "coq")
@@ -186,10 +187,13 @@ def case_term(casedir, idx, meta):
 
 LISTKEYS = ("xs", "ops", "zs", "us", "ys")
 
-def shrink(pid, line, want_mask, cfg, profile, extra):
-    """Greedy deletion of list elements, keeping a case whose verdict still has a bit of want_mask."""
+def shrink(pid, line, want_mask, cfg, profile, extra, budget_s=45):
+    """Greedy deletion of list elements (chunks first, single elements only for short lists), keeping a
+    case whose verdict still has a bit of want_mask. Bounded by a wall-clock budget."""
     best = line
-    for _round in range(12):
+    t0 = time.time()
+    for _round in range(40):
+        if time.time() - t0 > budget_s: break
         kind, *fields = best.split("|")
         cands = []
         for fi, f in enumerate(fields):
@@ -198,13 +202,16 @@ def shrink(pid, line, want_mask, cfg, profile, extra):
             items = v.split(",")
             n = len(items)
             cuts = []
-            if n > 4: cuts += [(0, n // 2), (n // 2, n)]
-            cuts += [(j, j + 1) for j in range(n)]
+            size = n // 2
+            while size >= 1 and (size > 1 or n <= 48):
+                cuts += [(a, min(n, a + size)) for a in range(0, n, size)]
+                if size == 1: break
+                size //= 2
             for a, b in cuts:
                 new = items[:a] + items[b:]
                 nf = fields[:fi] + [k + "=" + ",".join(new)] + fields[fi + 1:]
                 cands.append("|".join([kind] + nf))
-        cands = list(dict.fromkeys(cands))[:300]
+        cands = list(dict.fromkeys(cands))[:96]
         if not cands: break
         d = os.path.join(BUILD, "cases", pid, "shrink")
         ok, out = harness_exec(pid, cands, d, profile)
@@ -254,7 +261,7 @@ def setup():
     ok, log = coq_make([])
     print(log[-3000:])
     if not ok:
-        print("SETUP: coq build failed"); return 1
+        print("SETUP: warning: some Coq files did not build; the affected checks will report it")
     for prof in ("release", "debug"):
         ok, log = cargo_build(prof)
         if not ok:
@@ -277,9 +284,7 @@ def decide(pid, tier, seed, replay=None):
     if cfg.get("translator") and not replay:
         import tables
         gen_ok, gen_info = tables.regenerate(pid, ROOT, BUILD)
-        if gen_ok:
-            extra_q = [(os.path.join(BUILD, "gen"), "SignaloGen")]
-        else:
+        if not gen_ok:
             violations.append(("translator", gen_info.get("error", "translator failed"), None, False))
 
     # 2. proofs
